@@ -196,6 +196,20 @@ func provTransfer(r *Routine, in *Instr, e *Effect, st provState) provState {
 				out[a[1].Reg] = p
 			}
 			return out
+		case "INCQ", "DECQ":
+			// r +- 1: the same object (pointer) or a value derived from the same inputs
+			if len(a) == 1 && a[0].Kind == OReg {
+				d := st.get(a[0].Reg).clone()
+				if d.Const != nil {
+					v := *d.Const + 1
+					if op == "DECQ" {
+						v = *d.Const - 1
+					}
+					d.Const = &v
+				}
+				out[a[0].Reg] = d
+				return out
+			}
 		case "ADDQ", "SUBQ":
 			if len(a) == 2 && a[1].Kind == OReg {
 				d := st.get(a[1].Reg)
